@@ -27,7 +27,7 @@ from lxml import etree
 import pywbem
 from pywbem import CIMInstance, CIMProperty, Uint16, Uint64, _cim_xml
 
-from .runner import Sub, slug, _pkg_dirs
+from .runner import Sub, _pkg_dirs
 from . import strategies as S
 from . import responses as R
 from .xmlserver import validate_cimxml
@@ -50,11 +50,19 @@ RULE = (
     "Accept-Charset (q-values), Accept-Range, Content-Type (charsets), "
     "Content-Encoding, Expect, Connection, Transfer-Encoding values "
     "(acceptable, unacceptable, odd characters, latin-1, NUL, obs-fold, "
-    "very long), header name case, many headers.  sequences: histories of "
-    "such requests on one listener mixed with valid indications, with up to "
-    "4 connections stalled in the middle of a request, resumed or aborted "
-    "later.  queue_full: a listener with max_ind_queue_size 1..3 whose "
-    "callback blocks.  Non-trivial = method POST with a parsable request "
+    "very long, random latin-1 text), header name case, many headers, raw "
+    "header lines.  Every request is followed by a valid indication with a "
+    "fresh marker (survival probe).  listener_responses: valid HTTP, "
+    "arbitrary instances (embedded depth <= 1), arbitrary method names, "
+    "parameter names and message ids (responses that echo them go through "
+    "the C03 oracle).  sequences: histories of such requests on one "
+    "listener mixed with valid indications, bursts of 2..6 simultaneous "
+    "valid indications, and up to 4 connections stalled in the middle of a "
+    "request that are resumed or aborted (close/RST/half-close) later.  "
+    "queue_full: a listener with max_ind_queue_size 1..3 whose callback "
+    "blocks: n+1 accepted, the next 1..3 must get ERROR CODE 1, other "
+    "requests still answered, everything accepted delivered once after "
+    "release.  Non-trivial = method POST with a parsable request "
     "line (reaches the do_POST header checks) and >= 1 injected defect; for "
     "listener_responses = the listener answered 200 (body validated by the "
     "C03 oracle); for sequences = history with >= 1 defective request and "
@@ -71,7 +79,22 @@ ASSUMPTIONS = [
     "docstring (FAILED for a full queue) and listener code comments "
     "(NOT_SUPPORTED unknown method, INVALID_PARAMETER wrong parameters); "
     "only requests with exactly one injected defect whose class is certain "
-    "get a specific expectation, all others only the generic oracle",
+    "get a specific expectation, all others only the generic oracle (one "
+    "well-formed response, 200 with a DTD-valid export response or 4xx/5xx, "
+    "no raw CR/LF in header lines, only header names the handler emits, "
+    "listener survives); a request target other than '/', a body shorter "
+    "than Content-Length, duplicate parameters, case variants of names, a "
+    "missing XML declaration, comments/PIs/DOCTYPE, VALUE.NAMEDINSTANCE "
+    "or two INSTANCE children get the generic oracle only",
+    "a valid request (also with acceptable Accept/Accept-Charset/"
+    "Content-Type/Content-Encoding values, Expect: 100-continue, Connection, "
+    "lower-case header names, HTTP/1.0, CIMVERSION/DTDVERSION 2.x, any "
+    "MESSAGE ID) must be answered with success and be delivered exactly "
+    "once; markers carry a check digit so that a mutated request cannot "
+    "carry the marker of another one",
+    "time limits (12 s per read, 20 s for a delivery) are stop conditions; "
+    "after three expirations in a process they are lowered so that a run "
+    "against a badly broken tree ends",
     "'malformed XML' = rejected by both expat and libxml2 as not well-formed",
     "header mismatches asserted: Accept/Content-Type naming only non-XML "
     "media types, Accept-Charset/charset naming only non-UTF-8 charsets, "
@@ -725,7 +748,7 @@ def _g_header_defect(draw):
                 'ok' if v.lower() == '100-continue' else 'maybe')
     if which == 7:
         return ('hdr:Connection', [('Connection', _pick(draw, [
-            'keep-alive', 'close', 'Keep-Alive, TE', 'upgrade']))], 'ok')
+            'keep-alive', 'close', 'Keep-Alive', 'Close']))], 'ok')
     if which == 8:
         return ('hdr:Transfer-Encoding', [('Transfer-Encoding', _pick(draw, [
             'chunked', 'identity', 'gzip, chunked']))], 'maybe')
@@ -872,7 +895,7 @@ def _g_request(draw, profile='mixed', inst_depth=None):
             else:
                 rec['xml'].append(('version-ok', (
                     _pick(draw, ['CIMVERSION', 'DTDVERSION']),
-                    _pick(draw, ['2.0', '2.3', '2.4', '2.99', '2.0.0']))))
+                    _pick(draw, ['2.0', '2.1', '2.3', '2.4', '2.99']))))
         rec['version'] = _pick(draw, ['HTTP/1.1', 'HTTP/1.0'])
         return rec
     if profile == 'valid':
@@ -979,7 +1002,8 @@ def build_body(rec, marker):
                 info['expect'].append('any')
         elif name == 'notinst':
             params = [('NewIndication', payload)]
-            info['expect'].append('cim-error-or-reject')
+            info['expect'].append('any' if payload in (
+                'VALUE.NAMEDINSTANCE', 'TWOINST') else 'cim-error-or-reject')
         elif name == 'msgid':
             msgid = payload
             info['expect'].append('same')
@@ -1086,8 +1110,7 @@ def build_body(rec, marker):
         elif name == 'decl':
             body = _apply_decl(body, payload)
             info['expect'].append('same' if payload in (
-                'none', 'UTF-8', 'ws', 'comment', 'pi', 'standalone', 'crlf')
-                else 'any')
+                'UTF-8', 'ws', 'standalone', 'crlf') else 'any')
     return body, info
 
 
@@ -1229,8 +1252,11 @@ def build_request(rec, marker):
     if rec['method'] != 'POST':
         # http.server may refuse the header section before dispatching
         expect = '405' if rec['method'] in VERBS_405 and \
-            'maybe' not in hdr_cert else 'http-error'
-    elif cl_state == 'other' or 'maybe' in hdr_cert:
+            'maybe' not in hdr_cert and rec['target'] == '/' \
+            else 'http-error'
+    elif cl_state == 'other' or 'maybe' in hdr_cert or \
+            rec['target'] != '/':
+        # (an unusual request target may be refused on the HTTP level)
         expect = 'any'
     elif 'bad' in hdr_cert:
         expect = 'reject'
@@ -1238,8 +1264,11 @@ def build_request(rec, marker):
         expect = 'reject'
     elif wf is None:
         expect = 'any'
+    elif cl_state != 'exact':
+        # a body shorter than Content-Length may be refused
+        expect = 'any'
     elif not exp:
-        expect = 'success' if cl_state in ('exact', 'long') else 'any'
+        expect = 'success'
     elif len(exp) == 1:
         expect = exp[0]
     else:
@@ -1260,7 +1289,6 @@ def check_exchange(ctx, fx, raw, info, data, end, classes, where=''):
     """
     expect = info['expect']
     end, lport = end
-    where = ''
     if end == 'not-connected':
         ctx.fail('no-response:connection-not-accepted',
                  'connect() to the listener port failed or timed out')
@@ -1289,7 +1317,7 @@ def check_exchange(ctx, fx, raw, info, data, end, classes, where=''):
         return None
     resp = parse_response(data, info.get('head_request', False))
     for sig, detail in resp.problems:
-        ctx.fail(where + sig, '%s\nrequest: %r\nresponse: %r' %
+        ctx.fail(sig, '%s\nrequest: %r\nresponse: %r' %
                  (detail, raw[:600], data[:1200]))
     if resp.status is None:
         classes.append('outcome:unparsable')
@@ -1301,19 +1329,19 @@ def check_exchange(ctx, fx, raw, info, data, end, classes, where=''):
     kind = code = None
     if status == 200:
         if resp.get('content-length') is None:
-            ctx.fail(where + 'response:200-without-content-length',
+            ctx.fail('response:200-without-content-length',
                      '%r' % data[:400])
         ct = (resp.get('content-type') or b'').split(b';')[0].strip().lower()
         if ct not in (b'text/xml', b'application/xml'):
-            ctx.fail(where + 'response:200-content-type-not-xml', '%r' % ct)
+            ctx.fail('response:200-content-type-not-xml', '%r' % ct)
         bad = validate_cimxml(resp.body)
         if bad is not None:
-            ctx.fail(where + 'response-body:' + bad[0],
+            ctx.fail('response-body:' + bad[0],
                      '%s\nrequest: %r' % (bad[1], raw[:1500]))
         else:
             kind, code, _ = export_response(resp.body)
             if kind is None:
-                ctx.fail(where + 'response-body:not-an-export-response',
+                ctx.fail('response-body:not-an-export-response',
                          '%r' % resp.body[:600])
             else:
                 classes.append('resp:' + kind + (('-' + str(code))
@@ -1323,16 +1351,16 @@ def check_exchange(ctx, fx, raw, info, data, end, classes, where=''):
         if ce is not None:
             classes.append('cimerror:' + ce.decode('latin-1')[:40])
             if not re.match(rb"^[!#$%&'*+\-.^_`|~0-9A-Za-z]+$", ce):
-                ctx.fail(where + 'response:CIMError-value-not-a-token',
+                ctx.fail('response:CIMError-value-not-a-token',
                          '%r' % ce)
     else:
-        ctx.fail(where + 'response:unexpected-status-%d' % status,
+        ctx.fail('response:unexpected-status-%d' % status,
                  'request %r -> %r' % (raw[:300], data[:300]))
         return resp
 
     # expectations for requests whose class is certain
     def mismatch(what):
-        ctx.fail(where + 'expect:' + what,
+        ctx.fail('expect:' + what,
                  'expected %s; request %r\nresponse %r' %
                  (expect, raw[:1500], data[:800]))
     if expect == 'success':
@@ -1788,12 +1816,12 @@ def queue_oracle(ctx, ex):
 
 SUBCHECKS = [
     Sub('requests', strategy=request_strategy, oracle=request_oracle,
-        quick=(16, 700), thorough=(16, 15000), case_timeout=120,
+        quick=(16, 1000), thorough=(16, 15000), case_timeout=120,
         budget=(70, 1200)),
     Sub('listener_responses', strategy=responses_strategy,
-        oracle=responses_oracle, quick=(8, 400), thorough=(16, 8000),
+        oracle=responses_oracle, quick=(8, 600), thorough=(16, 8000),
         case_timeout=120, budget=(70, 1200)),
-    Sub('sequences', machine=Sequences, quick=(8, 50), thorough=(16, 1500),
+    Sub('sequences', machine=Sequences, quick=(8, 80), thorough=(16, 1500),
         steps=(12, 40), case_timeout=300, budget=(70, 1200)),
     Sub('queue_full', strategy=queue_strategy, oracle=queue_oracle,
         quick=(8, 6), thorough=(16, 60), case_timeout=120,
